@@ -108,7 +108,7 @@ fn go<P: Part>(p: &P, cfg: &Cfg, reports: &mut Vec<PartReport>, replayed: &mut O
     }
     if let Some(path) = &cfg.replay {
         let v: serde_json::Value = serde_json::from_str(&std::fs::read_to_string(path).expect("cannot read replay file")).expect("replay file is not JSON");
-        if v["part"].as_str() != Some(&p.name()) {
+        if v["part"].as_str() != Some(&format!("{}{}", p.name(), variant_suffix())) {
             return;
         }
         match replay_part(p, cfg, &v["case"]) {
@@ -126,12 +126,19 @@ fn go<P: Part>(p: &P, cfg: &Cfg, reports: &mut Vec<PartReport>, replayed: &mut O
         }
         return;
     }
-    let rep = run_part(p, cfg);
+    let mut rep = run_part(p, cfg);
+    rep.name = format!("{}{}", rep.name, variant_suffix());
     eprintln!(
         "  part {}: cases {} transitions {} validated {} violating {} outcomes {} ({:.1}s)",
         rep.name, rep.run, rep.transitions, rep.validated, rep.violations.len(), rep.outcomes.len(), rep.wall_s
     );
     reports.push(rep);
+}
+
+/// set by ./check when the same exploration is repeated with a differently built library (e.g. the profile a
+/// release user gets); it becomes part of the part name so that replays find the right binary
+fn variant_suffix() -> String {
+    std::env::var("HPKE_MC_VARIANT").map(|v| format!("@{}", v)).unwrap_or_default()
 }
 
 fn main() {
@@ -201,6 +208,7 @@ fn main() {
             }
             let starts: Vec<u64> = if t { session::seq_starts().into_iter().filter(|p| *p % 2 == 1 || *p > u64::MAX - 4 || *p < 3).collect() } else { vec![0, 255, (1 << 32) - 1, (1 << 56) - 1, u64::MAX - 3, u64::MAX - 2, u64::MAX - 1, u64::MAX] };
             go(&session::E2b { suites: session::seq_suites(false), starts, depth: if t { 4 } else { 3 }, letters: (0..12).collect(), label: "full".into() }, &cfg, &mut reports, &mut replayed);
+            go(&session::LongRuns { suites: session::seq_suites(false), n_fail: if t { 300_000 } else { 70_000 }, n_ok: if t { 300_000 } else { 70_000 } }, &cfg, &mut reports, &mut replayed);
             // a deeper tree from the two ends of the sequence space
             go(&session::E2b { suites: session::seq_suites(false), starts: if t { vec![0, u64::MAX - 2, u64::MAX - 1] } else { vec![u64::MAX - 1] }, depth: if t { 5 } else { 4 }, letters: (0..12).collect(), label: "deep".into() }, &cfg, &mut reports, &mut replayed);
         }
